@@ -191,6 +191,73 @@ class StarveStrategy(Strategy):
         return pool[self.rnd.randrange(len(pool))]
 
 
+class GuidedStrategy(Strategy):
+    """Steers the real threads along a behaviour produced by TLC (spec -> code leg).
+
+    `script`: list of dicts {'role': ..., 'ev': event name or None, 'open': gate key or None}.  At every decision the thread
+    whose role is the role of the current script step is preferred; the step is consumed when that role emits the step's
+    event.  `role_of(TState) -> role`.  `gates`: dict shared with the harness; a step with 'open' sets gates[key] = True
+    when it becomes current (harness code polls its gate with detsched.checkpoint()).  If the behaviour cannot be followed
+    (role not runnable for `patience` decisions) the step is skipped - the execution stays a legal execution of the code and
+    is validated like any other; `followed`/`skipped` tell how faithfully the behaviour was realised.
+    """
+
+    def __init__(self, script, role_of, gates, seed=0, patience=60):
+        import random
+        self.script = list(script)
+        self.role_of = role_of
+        self.gates = gates
+        self.rnd = random.Random(seed)
+        self.ptr = 0
+        self.patience = patience
+        self.stuck = 0
+        self.followed = 0
+        self.skipped = 0
+        self._open()
+
+    def _open(self):
+        while self.ptr < len(self.script) and self.script[self.ptr].get('ev') is None \
+                and self.script[self.ptr].get('open') is None:
+            self.ptr += 1           # silent step without a gate: nothing to steer
+        if self.ptr < len(self.script):
+            k = self.script[self.ptr].get('open')
+            if k is not None:
+                self.gates[k] = True
+        else:
+            self.gates['*'] = True  # behaviour exhausted: let everything finish
+
+    def on_emit(self, sched, rec):
+        if self.ptr >= len(self.script):
+            return
+        st = self.script[self.ptr]
+        t = sched.threads.get(_get_ident())
+        if st.get('ev') == rec['ev'] and t is not None and self.role_of(t) == st['role']:
+            self.ptr += 1
+            self.followed += 1
+            self.stuck = 0
+            self._open()
+
+    def pick(self, sched, runnable, current):
+        if self.ptr < len(self.script):
+            role = self.script[self.ptr]['role']
+            cands = [t for t in runnable if self.role_of(t) == role]
+            if cands:
+                self.stuck = 0
+                return current if current in cands else cands[0]
+            self.stuck += 1
+            if self.stuck > self.patience:
+                k = self.script[self.ptr].get('open')
+                if k is not None:
+                    self.gates[k] = True
+                self.ptr += 1
+                self.skipped += 1
+                self.stuck = 0
+                self._open()
+        if current is not None and current.status == RUNNABLE and self.rnd.random() < 0.5:
+            return current
+        return runnable[self.rnd.randrange(len(runnable))]
+
+
 class ReplayStrategy(Strategy):
     """Replays a recorded list of choices (tid per decision, 'T<tid>' entries mean: fire that thread's timer)."""
 
@@ -350,6 +417,13 @@ class Scheduler:
         rec.update(kw)
         self.trace.append(rec)
         self.last_progress_vtime = self.now
+        hook = getattr(self.strategy, 'on_emit', None)
+        if hook is not None:
+            hook(self, rec)
+            # under a guided strategy every logged event is also a scheduling point, so that the next step of the
+            # behaviour can be given to another thread before this one goes on to its next event
+            if t is not None and not t.passthrough and not self.finished:
+                self.yield_point(t, 'emit', None)
         return rec
 
     def alive(self):
